@@ -293,7 +293,7 @@ func (n *namer) atomName(id string) string {
 	case a.kind == "top":
 		name = "top(" + a.label + ")"
 	case a.kind == "loop":
-		name = "?loop" + id // a loop variable used outside its loop
+		name = "i" // a loop variable printed outside its loop (diagnostics only)
 	default:
 		name = sprintf("n%d", n.nvar)
 		if len(a.domain) > 0 {
